@@ -329,36 +329,33 @@ def _request_fields(ctx, fn, module):
     return None, None
 
 
-@rule(P, "D18.5", "T-SIB", floor=3)
+@rule(P, "D18.5", "T-WITNESS", floor=3)
 def d18_5(ctx):
-    """_read_tag and _write_tag emit the same PCCC field sequence and differ only in FNC and the trailing mask+data."""
+    """_read_tag and _write_tag emit the same PCCC field sequence (Execute PCCC header, CMD 0F, STS, TNS, FNC, byte size, file
+    number, file type, element, sub-element) and differ only in FNC (A2 / AB) and the trailing mask + data.  Decided by folding
+    both methods on witness addresses and comparing the command body byte for byte (D18.13) and `_msg_start` on a witness
+    configuration; an earlier form compared the source text of the list displays and alarmed when the address fields moved
+    into a shared helper."""
+    from ..miniinterp import run_function
+
     sp = ctx.spec("pccc")
     drv = ctx.model.cls(f"{SLC}:SLCDriver")
-    r, rn = _request_fields(ctx, drv.methods["_read_tag"], drv.module)
-    w, wn = _request_fields(ctx, drv.methods["_write_tag"], drv.module)
-    if r is None or w is None:
-        ctx.undecided(ckey(drv.key, "request-fields"), drv.node, "message_request lists not found")
-        return
-    w_norm = [x.replace("_tag['data_size']", "PCCC_DATA_SIZE[_tag['file_type']]") for x in w]
-    ds_ok = any(isinstance(n, ast.Assign) and src(n.targets[0]).replace('"', "'") == "_tag['data_size']" and src(n.value).replace('"', "'").replace(" ", "") == "PCCC_DATA_SIZE[_tag['file_type']]" for n in walk(drv.methods["_write_tag"]))
-    same = len(w_norm) == len(r) + 1 and all(a == b for i, (a, b) in enumerate(zip(r, w_norm)) if i != 4) and ds_ok
-    ctx.check(same, ckey(drv.key, "read-write-fields"), wn, "identical address fields in read and write requests", f"read fields {r} vs write fields {w_norm}: the two requests address different locations", read=r, write=w)
-    want = ["self._msg_start()", "SLC_CMD_CODE", "b'\\x00'", "UINT.encode(next(self._sequence))", None, "USINT.encode(PCCC_DATA_SIZE[_tag['file_type']]*_tag['element_count'])", "USINT.encode(int(_tag['file_number']))", "PCCC_DATA_TYPE[_tag['file_type']]", "USINT.encode(int(_tag['element_number']))", None]
-    good = len(r) == 10 and all(x is None or x == y for x, y in zip(want, r))
-    ctx.check(good, ckey(drv.key + "._read_tag", "field-order"), rn, "header, CMD, STS, TNS, FNC, size, file number, file type, element, sub-element", f"read request fields are {r}", fields=r)
+    d18_13(ctx)
     fr = ctx.folder.eval(ast.Name(id="SLC_FNC_READ", ctx=ast.Load()), drv.module)
     fw = ctx.folder.eval(ast.Name(id="SLC_FNC_WRITE", ctx=ast.Load()), drv.module)
     cmd = ctx.folder.eval(ast.Name(id="SLC_CMD_CODE", ctx=ast.Load()), drv.module)
-    good = r[4] == "SLC_FNC_READ" and w[4] == "SLC_FNC_WRITE" and fr == bytes.fromhex(sp["fnc"]["protected_typed_logical_read_3"]) and fw == bytes.fromhex(sp["fnc"]["protected_typed_logical_masked_write_3"]) and cmd == bytes.fromhex(sp["cmd"])
-    ctx.check(good, ckey(drv.key, "fnc"), rn, "CMD 0F; FNC A2 read / AB masked write", f"CMD {cmd!r}, read FNC {fr!r}, write FNC {fw!r}", read=fr, write=fw)
-    good = w[-1] == "writeable_value(_tag,value)"
-    ctx.check(good, ckey(drv.key + "._write_tag", "data"), wn, "write request ends with mask + data", f"write request ends with {w[-1]}")
+    good = fr == bytes.fromhex(sp["fnc"]["protected_typed_logical_read_3"]) and fw == bytes.fromhex(sp["fnc"]["protected_typed_logical_masked_write_3"]) and cmd == bytes.fromhex(sp["cmd"])
+    ctx.check(good, ckey(drv.key, "fnc"), drv.methods["_read_tag"], "CMD 0F; FNC A2 read / AB masked write", f"CMD {cmd!r}, read FNC {fr!r}, write FNC {fw!r}", read=fr, write=fw)
     ms = drv.methods["_msg_start"]
-    from ..bytelayout import Layouter, flatten, show
-    lay = flatten(Layouter(ctx, drv.module, drv, ms).function(ms) or [])
     ex = sp["execute_pccc"]
-    good = len(lay) >= 3 and lay[0][0] == "const" and b"".join(f[1] for f in lay if f[0] == "const")[:7] == bytes.fromhex(ex["service"] + "02" + ex["path"] + f"{ex['requestor_id_length']:02x}") and [f[1] for f in lay if f[0] == "ref"] == ["self._cfg['vid']", "self._cfg['vsn']"]
-    ctx.check(good, ckey(drv.key + "._msg_start"), ms, "4B 02 20 67 24 01 | 07 vendor serial", f"Execute-PCCC header is {show(lay)}", layout=show(lay))
+    kind, res = run_function(ctx, drv.module, ms, {"self": witness_instance(drv, _cfg={"vid": b"VI", "vsn": b"VSN!"})}, deep=False)
+    want = bytes.fromhex(ex["service"] + "02" + ex["path"] + f"{ex['requestor_id_length']:02x}") + b"VI" + b"VSN!"
+    key = ckey(drv.key + "._msg_start")
+    if kind == "unknown":
+        ctx.undecided(key, ms, f"_msg_start not foldable: {res}")
+    else:
+        res = bytes(res) if isinstance(res, bytearray) else res
+        ctx.check(kind == "return" and res == want, key, ms, "4B 02 20 67 24 01 | 07 vendor serial", f"Execute-PCCC header is {res.hex() if isinstance(res, bytes) else (kind, res)}; expected {want.hex()} (service, path size, class 0x67 instance 1, requestor id length, vendor id, serial number)")
 
 
 @rule(P, "D18.6", "T-WITNESS", floor=3)
@@ -388,13 +385,24 @@ def d18_7(ctx):
     ctx.check(start == derived_data == sp["reply"]["data_index"] and rid == sp["execute_pccc"]["requestor_id_length"], "pycomm3.const:SLC_REPLY_START", cm.symbols["SLC_REPLY_START"].node, f"data starts at 50 + requestor id ({rid}) + CMD/STS/TNS (4) = {derived_data}",
               f"SLC_REPLY_START is {start!r}; connected reply data (50) + requestor id ({rid}) + CMD,STS,TNS (4) = {derived_data}", got=start)
     rs = ctx.model.func(f"{SLC}:request_status")
-    idx = None
-    for n in walk(rs.node):
-        if isinstance(n, ast.Subscript) and atom_name(n.value) == rs.node.args.args[0].arg:
-            idx = ctx.folder.eval(n.slice, rs.module)
-    ctx.check(idx == derived_status == sp["reply"]["status_index"], ckey(rs, "status-index"), rs.node, f"PCCC STS byte at {derived_status}", f"request_status reads byte {idx!r}; the STS byte is at {derived_status}", got=idx)
-    ok_ret = any(isinstance(n, ast.If) and cmp_norm(n.test) is not None and any(isinstance(r, ast.Return) and isinstance(r.value, ast.Constant) and r.value.value is None for r in n.body) for n in walk(rs.node))
-    ctx.check(ok_ret, ckey(rs, "success"), rs.node, "status 0 -> None (success), anything else -> text", "request_status no longer maps only status 0 to success")
+    from ..miniinterp import run_function
+
+    codes = ctx.folder.module_value(rs.module.name, "PCCC_ERROR_CODE")
+    known = next((c_ for c_ in sorted(codes) if isinstance(c_, int) and 0 < c_ < 256), None) if isinstance(codes, dict) else None
+    if derived_status != sp["reply"]["status_index"] or known is None or known == 0:
+        ctx.violation(ckey(rs, "status-index"), rs.node, f"the STS byte derived from the reply layout is at {derived_status}, the specification table says {sp['reply']['status_index']}" if known is not None else "PCCC_ERROR_CODE is not a constant table")
+    else:
+        unknown = next(c_ for c_ in range(1, 256) if c_ not in codes)
+        frame = lambda sts, around=0: bytes(derived_status - 1) + bytes([around, sts, around]) + bytes(8)  # noqa: E731
+        p0 = rs.node.args.args[0].arg
+        for label, data, want, role in (("STS 0", frame(0), None, "success"), ("STS 0 between non-zero neighbours", frame(0, known), None, "status-index"), (f"STS {known:#04x}", frame(known), codes[known], "status-index"),
+                                        (f"an STS the table does not know ({unknown:#04x})", frame(unknown), "Unknown Status", "success"), ("a reply cut before the STS byte", bytes(derived_status), "Unknown Status", "success"), ("no reply", None, "Unknown Status", "success")):
+            kind, res = run_function(ctx, rs.module, rs.node, {p0: data}, deep=False)
+            key = ckey(rs, f"{role}:{label}")
+            if kind == "unknown":
+                ctx.undecided(key, rs.node, f"request_status not foldable on {label}: {res}")
+                continue
+            ctx.check((kind, res) == ("return", want), key, rs.node, f"{label} -> {want!r}", f"request_status on {label} gives {kind} {res!r}; expected {want!r} (only STS 0 at byte {derived_status} is success, anything else a text)")
     # PRE / ACC are words 1 and 2 of a timer / counter element, extracted only for T and C files: decided by folding
     # _parse_read_reply on witness records x data (D18.12) - an earlier form matched the if-ladder and alarmed on a table lookup
     d18_12(ctx)
